@@ -77,6 +77,12 @@ def run(ctx):
                           output=r.outtext, observed=f'fresh-variable proposal accepted on the final output: {fresh[0]["candidate"][:200]}',
                           expected='no proposal accepted')
         f['accepted'] = other
+        last = [e for e in r.ev('pass') if e['id'] == e['npasses'] - 1]
+        if last and sorted(last[-1]['mutators']) != sorted(f['enabled']):
+            ctx.violation('impl-violation', input=j['text'], options=j['opts'], command=j['cmd'], output=r.outtext,
+                          observed=f"the last pass of the run used {sorted(last[-1]['mutators'])}, but the mutators enabled for this input and these options are "
+                                   f"{sorted(f['enabled'])}: missing {sorted(set(f['enabled']) - set(last[-1]['mutators']))}",
+                          expected='the final sweep covers every enabled mutator')
         if f['accepted']:
             ctx.violation('impl-violation', input=j['text'], options=j['opts'], command=j['cmd'], env=j['env'], output=r.outtext,
                           observed=f'{len(f["accepted"])} proposal(s) on the final output are accepted by the command: {f["accepted"][0]}',
